@@ -17,7 +17,7 @@ type shape struct {
 	layout   [][]byte
 	stores   int
 	keys     [][]byte // ascending
-	kinds    []string // per key: put delete insert lock
+	kinds    []string // per key: put delete insert lock insdel (insert, then delete: a non-locking existence check in an optimistic txn)
 	exist    []bool   // per key: a committed value exists before the transaction
 	primary  int      // pessimistic: index of the key locked first (= primary); optimistic: the client picks the smallest key
 	pess     bool
@@ -55,12 +55,12 @@ func genShape(r *vx.Rand) shape {
 	}
 	s.keys = sortedKeys(ks)
 	for range s.keys {
-		s.kinds = append(s.kinds, pick(r, []string{"put", "put", "put", "delete", "insert", "lock"}))
+		s.kinds = append(s.kinds, pick(r, []string{"put", "put", "put", "delete", "insert", "lock", "insdel"}))
 		s.exist = append(s.exist, r.Chance(50))
 	}
 	// an insert over an existing key fails the transaction early: keep that rare so that most shapes reach Commit
 	for i := range s.keys {
-		if s.kinds[i] == "insert" && s.exist[i] && r.Chance(75) {
+		if (s.kinds[i] == "insert" || s.kinds[i] == "insdel") && s.exist[i] && r.Chance(75) {
 			s.exist[i] = false
 		}
 	}
@@ -125,6 +125,8 @@ func (s shape) prepare(c *hub.Client) bool {
 			return c.Delete(k) == "ok"
 		case "insert":
 			return c.Insert(k, []byte{0x33, byte(i)}) == "ok"
+		case "insdel":
+			return c.Insert(k, []byte{0x33, byte(i)}) == "ok" && c.Delete(k) == "ok"
 		}
 		return true
 	}
@@ -150,6 +152,9 @@ func (s shape) prepare(c *hub.Client) bool {
 		if s.kinds[i] == "insert" {
 			// staged insert + lock (the lock request carries the not-exist assertion)
 			return c.InsertLocked(s.keys[i], []byte{0x33, byte(i)}, "-") == "ok"
+		}
+		if s.kinds[i] == "insdel" {
+			return c.InsertLocked(s.keys[i], []byte{0x33, byte(i)}, "-") == "ok" && c.Delete(s.keys[i]) == "ok"
 		}
 		return c.Lock([][]byte{s.keys[i]}, "-") == "ok"
 	}
